@@ -69,6 +69,31 @@ def run(ctx):
                    % (b.root, racy[0].name.rsplit("::", 1)[-1] if racy else "", a.resolved.rsplit("::", 2)[-1]),
                    site=a.loc(), key="C29.1:load-then-fetch_add:%s" % b.root)
     ctx.extra["increment_sites_examined"] = n_sites
+    # a single compare_exchange is not "atomic check-and-increment": its failure only means that the counter moved
+    # between the load and the exchange.  Treating that failure as "no reference left" makes a live entry look dead.
+    from mir import branches_on
+    n_cas = 0
+    for m in methods:
+        for b in [m] + [c for c in prog.children(m)]:
+            for c in sem_calls(b):
+                if not (c.name.startswith(ATOMIC) and c.name.rsplit("::", 1)[-1] in ("compare_exchange", "compare_exchange_weak")):
+                    continue
+                n_cas += 1
+                fails = []
+                for br in branches_on(b, c.result, c.done_bb):
+                    for lab in ("err", "none"):
+                        e = br.edge(lab)
+                        if e is not None:
+                            fails.append(e)
+                retried = bool(fails) and all(c.bb in b.reachable(e[1]) for e in fails)
+                ctx.ob("C29.1", "compare_exchange on the handle counter is retried on contention:%s" % b.root, retried,
+                       "`%s`: a failed compare_exchange on the counter %s; a failure only says that another handle was cloned or "
+                       "dropped in between — reporting `no reference left` for it makes Gossip::stream re-join with a fresh "
+                       "counter while the old handles are alive, and their drop later leaves the overlay under the new handle. "
+                       "Accepted: fetch_update, or a loop that reloads and retries."
+                       % (b.root, "is not examined" if not fails else "leads to a return without retrying"),
+                       site=c.loc(), key="C29.1:cas-without-retry:%s" % b.root)
+    ctx.extra["compare_exchange_sites"] = n_cas
     # Drop table
     d = ctx.body("<%s as core::ops::drop::Drop>::drop" % G)
     leaves = [lf for lf in table(prog, d, lambda it: [Sym("self")], {}) if consistent_order(lf)]
